@@ -446,9 +446,10 @@ func (opt *Option) Save(a ...string) error {
 					return fmt.Errorf(text.ErrorConvertToInt, opt.UsedAlias, e)
 				}
 				if in1 < in2 {
-					for j := in1; j <= in2; j++ {
+					for j := in1; j < in2; j++ {
 						ii = append(ii, j)
 					}
+					ii = append(ii, in2)
 				} else {
 					// TODO: Create new error description for this error.
 					return fmt.Errorf(text.ErrorConvertToInt, opt.UsedAlias, e)
